@@ -1,7 +1,6 @@
 package taskprops
 
 import (
-	"bytes"
 	"encoding/json"
 	"flag"
 	"fmt"
@@ -10,7 +9,6 @@ import (
 	"math"
 	"os"
 	"os/exec"
-	"strings"
 	"sync"
 
 	"github.com/mandykoh/prism"
@@ -230,13 +228,16 @@ func execOp(o opSpec) uint64 {
 		c := ad.Apply(ciexyz.Color{X: f01(o.A), Y: f01(o.B), Z: f01(o.C)})
 		return uint64(math.Float32bits(c.X)) ^ uint64(math.Float32bits(c.Y))<<20 ^ uint64(math.Float32bits(c.Z))<<40
 	case opLoad:
-		cs := props.Corpus()
 		var small []props.CorpusFile
-		for _, c := range cs {
+		if o.C>>31 != 0 {
 			// C's top bit: only files that carry an ICC profile (loaders handing
 			// out profile bytes are where shared buffers would hide)
-			if len(c.Data) < 20000 && (o.C>>31 == 0 || strings.Contains(c.Name, "icc") || containsICC(c.Data)) {
-				small = append(small, c)
+			small = props.ICCCorpus()
+		} else {
+			for _, c := range props.Corpus() {
+				if len(c.Data) < 20000 {
+					small = append(small, c)
+				}
 			}
 		}
 		f := small[int(o.B)%len(small)]
@@ -271,10 +272,6 @@ type trialSpec struct {
 	Phases [2]phaseSpec
 }
 
-func containsICC(b []byte) bool {
-	return bytes.Contains(b, []byte("iCCP")) || bytes.Contains(b, []byte("ICC_PROFILE")) || bytes.Contains(b, []byte("ICCP"))
-}
-
 func drawPhase(t *tape.Tape, firstUse bool) phaseSpec {
 	var p phaseSpec
 	n := [...]int{2, 3, 4, 8, 16, 64}[t.Pick(8, 6, 4, 3, 2, 1)]
@@ -297,9 +294,8 @@ func drawPhase(t *tape.Tape, firstUse bool) phaseSpec {
 			if metaOnly {
 				o.Kind = opLoad
 				o.C |= 1 << 31
-				o.A = o.A&^3 | uint32(t.Pick(1, 0, 0, 1))*3 // pngmeta or autometa
-				if t.Chance(1, 4) {
-					o.A = t.U32()
+				if t.Bool() {
+					o.A = o.A&^3 | 3 // autometa
 				}
 			} else {
 				o.C &^= 1 << 31
@@ -430,6 +426,7 @@ func runTrialChild(args []string) bool {
 		os.Exit(2)
 	}
 	props.Corpus() // load shared read-only inputs before any task runs
+	props.ICCCorpus()
 	tr := drawTrial(tape.Replay(vals))
 	var out [2]phaseResult
 	out[0] = runPhase(tr.Phases[0])
@@ -446,6 +443,7 @@ func runTrialChild(args []string) bool {
 func (c11) Run(t *tape.Tape, st *Stats) *Violation {
 	st.Evals++
 	props.Corpus()
+	props.ICCCorpus()
 	tr := drawTrial(t)
 	// solo values: this worker process evaluates every operation on its own,
 	// outside any simulated run, one after the other
